@@ -91,10 +91,10 @@ def plan(tier, seed):
             if k == 3 and n > 4:
                 continue
             cases.append({"kind": "enum", "frag": smi, "k": k, "seed": seed})
-    nt = 24 if tier == "quick" else 400
+    nt = 64 if tier == "quick" else 400
     for i in range(nt):
         cases.append({"kind": "token", "seed": seed * 100003 + i, "n": 250})
-    nm = 32 if tier == "quick" else 600
+    nm = 128 if tier == "quick" else 600
     for i in range(nm):
         cases.append({"kind": "mol", "seed": seed * 100019 + i, "n": 40})
     return cases
